@@ -266,7 +266,7 @@ class Gen:
                 if rng.random() < .6: return pre + head + ['{'] + body + ['}']
                 return pre + head + body + ['END_IF']
             e = self.render(n[2], depth + 1)
-            dangling = bool(n[1]) and n[1][-1][0] == 'if' and n[1][-1][2] is None     # `IF IF { } ELSE ...` binds ELSE to the inner IF
+            dangling = bool(n[1]) and n[1][-1][0] == 'if' and n[1][-1][2] is None and body[-1:] == ['}']     # `IF IF { } ELSE ...` binds ELSE to the inner IF (an inner `IF ... END_IF` is closed: the ELSE is the outer one's)
             if rng.random() < .6 or dangling: return pre + head + ['{'] + body + ['}', rng.choice(['else', 'ELSE']), '{'] + e + ['}']
             return pre + head + body + ['ELSE'] + e + ['END_IF']
         if t == 'try':
